@@ -83,7 +83,7 @@ CLAIMED = {
        "order); a failing element ends the list with its failure and nothing after it is evaluated (evalList_stops); the same for struct "
        "fields and statement lists (evalFields_run, evalSeq_run). Tied to the implementation by 152 marker-log templates (every operator "
        "and position, foldable and hidden operands) and marker-dense generated programs compared log-for-log.",
-  note=SPEC_NOTE, technique="Lean 4 proof over a reference semantics + differential marker-log correspondence", ref="DESIGN.md §6 C07"),
+  note=SPEC_NOTE, technique="Lean 4 proof over a reference semantics (one-step order equations; lists, fields and statement lists of any length as runs) + differential marker-log correspondence", ref="DESIGN.md §6 C07"),
  "C11": dict(
   text="Lean 4 theorems about Spec for ANY iterator value, described only by the results of its successive pulls (inductive "
        "relation Pulls, store-changing pulls allowed): `$]` returns exactly the pulled elements in order; `$+ $* $& $|` are "
@@ -125,7 +125,7 @@ CLAIMED = {
        "right - and the first covering arm's body runs (with the binder in its own frame); the candidates after the first equal one and all later arms are "
        "never evaluated (arms_skipped, match_first_type_arm / _value_arm / _other_arm, cand_hit, cand_miss). Tied to the implementation by 248 "
        "systematic templates (4 loops x 7 enclosing constructs x 3 signals, nested loops, all arm orders, 13 array-tag provenances).",
-  note=SPEC_NOTE, technique="Lean 4 proof over a reference semantics + differential control-flow templates", ref="DESIGN.md §6 C12"),
+  note=SPEC_NOTE, technique="Lean 4 proof over a reference semantics (signal containment, selection, coverage; loops of any number of iterations and matches of any number of arms as runs) + differential control-flow templates", ref="DESIGN.md §6 C12"),
  "C13": dict(
   text="Lean 4 theorems about the store of Spec: `mut` allocates a location different from all existing ones holding the initial "
        "value and changes no other cell; read-after-write, writes leave other locations unchanged; `*` reads the location whatever "
@@ -141,7 +141,7 @@ CLAIMED = {
        "through respects a store typing - cells_keep_their_types: after any typed expression, each cell holds a value of its "
        "declared type by tag and by contents (induction on fuel over the whole evaluator, the store typing only ever extended).",
   note=SPEC_NOTE + " The typed-content invariant is proved for the checker-model fragment (declared content types, non-union cell operands; cells in structs and inferred `mut e` are outside it) and checked beyond it by the harness walk and the monitor.",
-  technique="Lean 4 proof over a reference semantics + differential assignment histories", ref="DESIGN.md §6 C13"),
+  technique="Lean 4 proof over a reference semantics (store lemmas; refinement of the store to the last-write map for every history; typed content) + differential assignment histories", ref="DESIGN.md §6 C13"),
  "C19": dict(
   text="Lean 4 theorems about Spec.veq (total model of PartialEq for Variable) and F64.feq (IEEE equality defined on bit patterns): "
        "values of different kinds are unequal; bool/int/string/() by value; floats by IEEE equality (symmetric, reflexive "
